@@ -1502,7 +1502,8 @@ def check_crosstab_merge(prog, rep, m, entry):
                     return rs_(_copy0.deepcopy(al_[n_.id]), depth + 1)
                 return n_
         return _S().visit(_copy0.deepcopy(e))
-    first = any(isinstance(x, ast.Assign) and norm(rs_(x.value)).replace(' ', '') == '%s[0]' % B for x in f.own_nodes())
+    first = any(isinstance(x, ast.Assign) and norm(rs_(x.value)).replace(' ', '') == '%s[0]' % B for x in f.own_nodes()) or \
+        any(norm(rs_(v_)).replace(' ', '') == '%s[0]' % B for v_ in al_.values())
     for lp in [x for x in f.own_nodes() if isinstance(x, ast.For)]:
         it = norm(rs_(lp.iter)).replace(' ', '')
         if it == 'range(1,len(%s))' % B and isinstance(lp.target, ast.Name):
